@@ -374,7 +374,15 @@ func populateConfig() error {
 
 func main() {
 	logger.Init("", false, false, os.Stdout)
-	flag.Parse()
+	// A malformed command line is tool misuse (exit code 1). The flag package's default handling
+	// exits with status 2, which this tool reserves for quote verification failures.
+	flag.CommandLine.Init(os.Args[0], flag.ContinueOnError)
+	if err := flag.CommandLine.Parse(os.Args[1:]); err != nil {
+		if errors.Is(err, flag.ErrHelp) {
+			os.Exit(0)
+		}
+		os.Exit(exitTool)
+	}
 	cmdline.Parse("auto")
 	logger.SetLevel(logger.Level(*verbosity))
 
